@@ -14,15 +14,19 @@ def parts(pipe="single", fluid=("Water", 0.0), soil=(2.0, 2343493.0, 18.3), grou
 
 
 def make_ghe(coords, pipe="single", H=100.0, loads=None, months=12, flow_per_bh=0.5, hvals=None, fluid=("Water", 0.0),
-             soil=(2.0, 2343493.0, 18.3), grout=(1.0, 3901000.0), rb=0.075, system_flow=None, gfunc=None, load_years=None, **kw):
-    """system_flow: if given, the GHE is built from a system flow (L/s) instead of per-borehole flow"""
+             soil=(2.0, 2343493.0, 18.3), grout=(1.0, 3901000.0), rb=0.075, system_flow=None, gfunc=None, load_years=None, shared=None, **kw):
+    """system_flow: if given, the GHE is built from a system flow (L/s) instead of per-borehole flow;
+    shared: (manager, borehole) whose media / pipe / borehole objects are used as they are (as one search uses them for every candidate)"""
     from ghedesigner.borehole import GHEBorehole
     from ghedesigner.gfunction import calc_g_func_for_multiple_lengths
     from ghedesigner.ground_heat_exchangers import GHE
     from ghedesigner.utilities import borehole_spacing, eskilson_log_times
 
-    m = parts(pipe=pipe, fluid=fluid, soil=soil, grout=grout, months=months, **kw)
-    bh = GHEBorehole(H, 2.0, rb, x=0.0, y=0.0)
+    if shared is not None:
+        m, bh = shared
+    else:
+        m = parts(pipe=pipe, fluid=fluid, soil=soil, grout=grout, months=months, **kw)
+        bh = GHEBorehole(H, 2.0, rb, x=0.0, y=0.0)
     n = len(coords)
     v_sys = system_flow if system_flow is not None else flow_per_bh * n
     m_flow_bh = v_sys / n / 1000.0 * m._fluid.rho
